@@ -51,6 +51,11 @@ type Spec struct {
 	// which a new capture file starts. File i holds packets [Cuts[i-1],Cuts[i]).
 	Cuts []int `json:"cuts"`
 	NG   bool  `json:"ng,omitempty"` // write pcapng instead of pcap
+	// TickUS > 0: the tap's clock is coarse, timestamps are rounded down to a
+	// multiple of TickUS (many equal timestamps, also across file cuts)
+	TickUS int64 `json:"tick,omitempty"`
+	// Prefix is put in front of the capture file names
+	Prefix string `json:"prefix,omitempty"`
 }
 
 type Packet struct {
@@ -326,6 +331,11 @@ func Build(spec *Spec) *Capture {
 		all = append(all, p...)
 		truth[i] = tr
 	}
+	if spec.TickUS > 1 {
+		for i := range all {
+			all[i].TimeUS -= all[i].TimeUS % spec.TickUS
+		}
+	}
 	sort.SliceStable(all, func(i, j int) bool {
 		if all[i].TimeUS != all[j].TimeUS {
 			return all[i].TimeUS < all[j].TimeUS
@@ -355,7 +365,7 @@ func Build(spec *Spec) *Capture {
 		if spec.NG {
 			ext = "pcapng"
 		}
-		capt.Names = append(capt.Names, fmt.Sprintf("cap%03d.%s", fi, ext))
+		capt.Names = append(capt.Names, fmt.Sprintf("%scap%03d.%s", spec.Prefix, fi, ext))
 		start = b
 	}
 	seenFirst := make([]bool, len(truth))
